@@ -258,6 +258,8 @@ def run_validation(model: SrcModel, entry: str, node, env, order: str = "fwd", p
                 res = h.call(f"{VAL}.validate_data_element", obj, pv, env["soll"])
             elif entry == "pool":
                 res = h.call(f"{VAL}.validate_data_element_valuepool", obj, pv)
+            elif entry == "pool-via-dispatch":  # the way segments reach a value pool: through the data element dispatcher
+                res = h.call(f"{VAL}.validate_data_element", obj, pv, env["soll"])
             else:
                 raise Unsupported(entry)
         except PyRaise as err:
@@ -404,6 +406,14 @@ def families(tier: str) -> List[Dict[str, Any]]:
     entries = [("ZD2", "m", "X [1]"), ("Z15", "m", "X [1]"), ("E03", "m", "X [2]"), ("E01", "m", "X [1]")]
     for inp in (None, "E01", "E03"):
         cases.append({"family": "pool", "entry": "pool", "node": valuepool("P", entries, inp), "env": {"rc": {"1": F, "2": U}, "fc_text": {}, "soll": True}, "parent": "IS_REQUIRED"})
+    # qualifiers and inputs are compared as they are: no trimming, no case folding - directly and through the dispatcher
+    entries = [("GABi-RLMmT", "m", "X [1]"), ("E01", "m", "X [1]"), ("E02", "m", "X [2]"), ("5.2e", "m", "X [1]")]
+    for inp in ("GABi-RLMmT", "gabi-rlmmt", "GABI-RLMMT", "e01", " E01", "E01 ", "E02", "e02", "5.2e", "5.2E", None, ""):
+        for entry in POOL_ENTRIES:
+            cases.append({"family": "pool", "entry": entry, "node": valuepool("P", entries, inp), "env": {"rc": {"1": F, "2": U}, "fc_text": {}, "soll": True}, "parent": "IS_REQUIRED"})
+    for inp in ("5.2e", "5.2E", " 5.2e", None):
+        for entry in POOL_ENTRIES:
+            cases.append({"family": "pool", "entry": entry, "node": valuepool("P", [("5.2e", "m", "X [2]")], inp), "env": {"rc": {"2": U}, "fc_text": {}, "soll": True}, "parent": "IS_REQUIRED"})
     # entries whose expression carries a format constraint: only the requirement outcome decides whether a qualifier is offered
     for entries, rc in (([("Q1", "m", "X [1][903]"), ("Q2", "m", "X [2]")], {"1": F, "2": U}),
                         ([("Q1", "m", "X [903]"), ("Q2", "m", "X [1][904]")], {"1": U}),
@@ -435,6 +445,9 @@ def families(tier: str) -> List[Dict[str, Any]]:
     return cases
 
 
+POOL_ENTRIES = ("pool", "pool-via-dispatch")
+
+
 def check_case(model: SrcModel, case) -> List[Tuple[str, str, str]]:
     problems: List[Tuple[str, str, str]] = []
     node, env, entry = case["node"], case["env"], case["entry"]
@@ -455,7 +468,7 @@ def check_case(model: SrcModel, case) -> List[Tuple[str, str, str]]:
     key = label()
     got = run_validation(model, entry, node, env, "fwd", parent)
     try:
-        want = [ref_pool(node, parent if parent != "absent" else None, env)] if entry == "pool" else ref_validate(node, None, env)
+        want = [ref_pool(node, parent if parent != "absent" else None, env)] if entry in POOL_ENTRIES else ref_validate(node, None, env)
         want_raise = None
     except RefNotImplemented:
         want, want_raise = None, "builtins.NotImplementedError"
@@ -467,10 +480,10 @@ def check_case(model: SrcModel, case) -> List[Tuple[str, str, str]]:
         r = rule
         if got[1] == INVALID:
             r = "C16.abort"
-        elif invalid_discs(node, env) and entry != "pool":
+        elif invalid_discs(node, env) and entry not in POOL_ENTRIES:
             if run_validation(model, entry, replace_invalid(node, env), env, "fwd", parent)[0] == "ret":
                 r = "C16.abort"
-        elif entry == "pool" and any(ref_eval(e, env) == "invalid" for _q, _m, e in node["entries"]):
+        elif entry in POOL_ENTRIES and any(ref_eval(e, env) == "invalid" for _q, _m, e in node["entries"]):
             repl_entries = [(q, m, "Kann" if ref_eval(e, env) == "invalid" else e) for q, m, e in node["entries"]]
             if run_validation(model, entry, dict(node, entries=repl_entries), env, "fwd", parent)[0] == "ret":
                 r = "C16.abort"
@@ -479,7 +492,7 @@ def check_case(model: SrcModel, case) -> List[Tuple[str, str, str]]:
         diff = compare(got[1], want)
         if diff:
             problems.append((rule, key, f"{key}: {diff}"))
-        if entry == "pool" and not diff and want[0]["input_after"] != got[2]:
+        if entry in POOL_ENTRIES and not diff and want[0]["input_after"] != got[2]:
             problems.append((rule, key, f"{key}: entered input afterwards is {got[2]!r}, expected {want[0]['input_after']!r} (an unexpected value is reported as empty)"))
     if case.get("orders") and got[0] == "ret":
         rev = run_validation(model, entry, node, env, "rev", parent)
@@ -496,7 +509,7 @@ def check_case(model: SrcModel, case) -> List[Tuple[str, str, str]]:
             problems.append(("C14.rewrite", key, f"{key}: differs from the AHB with every SOLL rewritten to {'MUSS' if env['soll'] else 'KANN'}: {strip(a)} vs {strip(b)}"))
     # C16: every other node as if the invalid expression were 'Kann'
     inv = invalid_discs(node, env)
-    if inv and entry != "pool" and got[0] == "ret" and not want_raise:
+    if inv and entry not in POOL_ENTRIES and got[0] == "ret" and not want_raise:
         repl = run_validation(model, entry, replace_invalid(node, env), env, "fwd", parent)
         if repl[0] == "ret":
             a = {r["disc"]: (r["status"], r.get("format"), r.get("offered")) for r in got[1]}
@@ -507,7 +520,7 @@ def check_case(model: SrcModel, case) -> List[Tuple[str, str, str]]:
                         problems.append(("C16.kann", key, f"{key}: node {d} carries an invalid expression and is reported {a[d][0]} instead of optional"))
                 elif a.get(d) != b[d]:
                     problems.append(("C16.kann", key, f"{key}: node {d} is {a.get(d)} but {b[d]} in the AHB where the invalid expression is replaced by 'Kann'"))
-    if fam == "pool" and entry == "pool":
+    if fam == "pool" and entry in POOL_ENTRIES:
         for i, (q, _m, e) in enumerate(node["entries"]):
             pass
     # C15: every element alone gives the same result
